@@ -11,3 +11,21 @@ Proof. unfold gen_merkle_tree_leaf, merkle_tree_leaf, add_entry_head. destruct (
 
 Lemma gen_merkle_tree_leaf_returns_bytes : gen_merkle_tree_leaf_returns = "b.BytesOrPanic()"%string.
 Proof. reflexivity. Qed.
+
+(* AppendTileLeaf as generated from tile.go: the loop over ChainFingerprints is a fold *)
+Lemma fold_b_add_concat (fps : list bytes) : forall acc,
+  fold_left (fun a f => b_add f a) fps (Some acc) = Some (acc ++ List.concat fps).
+Proof.
+  induction fps as [|f r IH]; intro acc; cbn [fold_left List.concat].
+  - now rewrite app_nil_r.
+  - cbn [b_add]. rewrite IH. now rewrite app_assoc.
+Qed.
+
+Lemma gen_append_tile_leaf_is_model t e :
+  gen_append_tile_leaf (add_extensions e) (l_cert e) (l_fps e) (l_pre e) (l_ikh e) (l_precert e) t (u64 (l_ts e))
+  = append_tile_leaf t e.
+Proof.
+  unfold gen_append_tile_leaf, append_tile_leaf, add_entry_head, b_empty.
+  rewrite fold_b_add_concat. cbn [app b_add].
+  destruct (l_pre e); reflexivity.
+Qed.
